@@ -95,6 +95,53 @@ CLAIMED = {
          "interval; block address/contents/contains_* are characterised; tied by histories on "
          "real intervals with probes around both ends of each block.",
          "5 C19"),
+ "C01": ("Lean 4 proof (fromMsg (toMsg v) = v for every self-contained IR, lifted through the "
+         "header) + save/parse/load/save differential run under both protobuf back ends",
+         "C01_roundtrip is proved over the value-level writer and staged reader for the decidable "
+         "precondition wfir (evaluated by the driver on every generated IR); re-saving gives the "
+         "same message; on the real code every generated IR's object dump equals the loaded "
+         "IR's, deep_eq holds both ways, the re-saved message is equal and AuxData values decode "
+         "equal; the forward-entry-point corner is the known finding K5.",
+         "5 C01"),
+ "C02": ("Lean 4 table theorems re-proved against the regenerated schema / enums / version on "
+         "every run + writer and reader field lemmas + two-direction differential run",
+         "schema_matches_model (rfl), enum_bijection and version_magic (decide) are re-checked "
+         "against tables regenerated from proto/*.proto and the built package; toMsg is the "
+         "field-by-field writer statement with one lemma per clause; reader lemmas say every "
+         "attribute of an accepted message equals the field; messages parsed by the generated "
+         "classes (writer) and built from the descriptors with every declared enum constant "
+         "(reader) are compared with the model under upb and pure Python.",
+         "5 C02"),
+ "C09": ("Lean 4 lemmas (accepted messages have typed, resolved references; UUID/Offset "
+         "resolution of the codec) + identity checks and exhaustive reference-fault stream",
+         "C17_accepted_refs proves every reference of an accepted message denotes a node of the "
+         "required kind; C07_*_resolution prove AuxData UUIDs naming attached nodes decode to "
+         "those nodes; on the real code every loaded IR's references are compared by identity "
+         "with containment and get_by_uuid, and every reference re-pointed to a missing UUID or "
+         "to each wrong kind must raise DeserializationError.",
+         "5 C09"),
+ "C13": ("Lean 4 proof (sorted key-unique store; lookup = scan in offset order) + differential "
+         "run against a built-in dict and a scan",
+         "The store invariant is proved over all MutableMapping operations, irange bounds are "
+         "proved to exclude no member, at/at_offset equal the scan in increasing offset order; "
+         "tied by histories of all mapping operations with lookups on every scope.",
+         "5 C13"),
+ "C17": ("Lean 4 proof (header/version rejection, totality, accepted messages are well formed) "
+         "+ fault enumeration with coherence oracle on the real objects",
+         "Over the reader model: magic / version byte / version field are always rejected, the "
+         "reader is total, accepted messages have 16-byte UUIDs, typed references, bytes <= "
+         "size and can be saved and loaded again (Nodup up to the block/own-interval corner); "
+         "every file saved from a self-contained IR is accepted; tied by truncations, bit and "
+         "byte flips, header variants and all single structural faults, each accepted IR "
+         "checked for coherence on the real objects and saved again, with a per-case timeout.",
+         "5 C17"),
+ "C18": ("Lean 4 proof (deepEq <-> canonical forms equal; reflexive, symmetric, order-"
+         "insensitive, one lemma per compared field) + perturbation enumeration",
+         "C18_iff, C18_symm (unconditional), C18_refl, permutation lemmas and 35 field lemmas "
+         "are proved over the model mirroring every class's deep_eq; tied by equal copies and "
+         "every applicable single-field perturbation with deep_eq both ways vs canonical-dump "
+         "equality vs the model.",
+         "5 C18"),
 }
 
 _PENDING = "check not built yet in this session (work in progress; see DESIGN.md section 8)"
